@@ -1,15 +1,15 @@
 SPECIFICATION Spec
 CONSTANTS
-  Versions <- VersionsPairs
+  Versions <- VersionsRoute
   FullVersions <- VersionsPairs
-  Families <- FamBoth
-  Kinds <- KindsExtra
-  ChunkSize = 6
-  MaxHist = 1
+  Families <- FamPdu
+  Kinds <- KindsRoute
+  ChunkSize = 1
+  MaxHist = 0
   FullOffsets <- OffNone
   LiteOffsets <- OffNone
   AllOnlyOffsets <- OffNone
-  RouteSteps = 0
+  RouteSteps = 3
   RouteFull = FALSE
 INVARIANTS TypeOK PExact PIdempotent PHistory PCore PIdentity PRoute PModule PSanity Emit
 CHECK_DEADLOCK FALSE
